@@ -72,12 +72,6 @@ func VerifC37Client(p VerifC37ClientParams) *VerifC37ClientResult {
 				switch x.Type {
 				case "tcpip-forward", "streamlocal-forward@openssh.com":
 					b.WritePacket(Marshal(globalRequestSuccessMsg{}))
-					for i := 0; i < p.Forwards; i++ {
-						b.WritePacket(openFor(uint32(verifC37FwdBase+i), false))
-					}
-					for i := 0; i < p.Strangers; i++ {
-						b.WritePacket(openFor(uint32(verifC37StrangerBase+i), true))
-					}
 				case "cancel-tcpip-forward", "cancel-streamlocal-forward@openssh.com":
 					if p.CancelOK {
 						b.WritePacket(Marshal(globalRequestSuccessMsg{}))
@@ -108,6 +102,15 @@ func VerifC37Client(p VerifC37ClientParams) *VerifC37ClientResult {
 		res.ListenErr = err.Error()
 		b.Close()
 		return res
+	}
+	// The peer's connections arrive once the listener exists on the client side. (A forward
+	// that overtakes the registration is rejected as "no forward for address": allowed by the
+	// property, but the application could then not count on Accepts <= Forwards.)
+	for i := 0; i < p.Forwards; i++ {
+		b.WritePacket(openFor(uint32(verifC37FwdBase+i), false))
+	}
+	for i := 0; i < p.Strangers; i++ {
+		b.WritePacket(openFor(uint32(verifC37StrangerBase+i), true))
 	}
 	for i := 0; i < p.Accepts; i++ {
 		if _, err := l.Accept(); err != nil {
